@@ -681,19 +681,31 @@ pub fn est_max_borrow(sim: &Sim, ma: &Pubkey, bank_pk: &Pubkey) -> Option<u64> {
 /// then execute one neighbour on the main timeline.
 pub fn act_borrow_boundary(sim: &mut Sim, ctx: &mut Ctx) -> Option<Tx> {
     let (ui, gi, ma) = user_and_account(ctx)?;
+    borrow_boundary_for(sim, ctx, ui, gi, ma)
+}
+
+pub fn borrow_boundary_for(sim: &mut Sim, ctx: &mut Ctx, ui: usize, gi: usize, ma: Pubkey) -> Option<Tx> {
     let b = pick_bank(ctx, gi)?;
     let u = ctx.world.users[ui].clone();
     let ta = *u.tokens.get(&b.keys.mint)?;
     let est = est_max_borrow(sim, &ma, &b.keys.bank)?;
-    if est == 0 {
-        return None;
-    }
     let vault = token_balance(&sim.store, &b.keys.liquidity_vault);
-    let hi = est.saturating_mul(2).saturating_add(16).min(vault.max(1));
     let rm = risk_metas(&sim.store, &ma, Some(b.keys.bank), None);
     let keys = b.keys.clone();
     let auth = u.authority;
     let build = move |x: u64| Tx::one("boundary_user", ix::borrow(&keys, ma, auth, ta, x, rm.clone()));
+    if est == 0 {
+        // Ref allows nothing: the smallest and a sizeable borrow must both be refused (forks)
+        sim.stats.fault("boundary_borrow_with_no_capacity");
+        for x in [1u64, (vault / 3).max(2)] {
+            sim.apply(Event::ForkTx(build(x)));
+            if sim.violated() && sim.stop_on_violation {
+                return None;
+            }
+        }
+        return None;
+    }
+    let hi = est.saturating_mul(2).saturating_add(16).min(vault.max(1));
     let t = bisect_boundary(sim, &build, hi, 70)?;
     sim.stats.fault("boundary_search_borrow");
     for d in [-2i64, -1, 0, 1, 2] {
